@@ -179,6 +179,17 @@ func isMethodOf(f *ssa.Function, n *types.Named, names ...string) bool {
 
 // fieldOf: if v is a load of (or address of) field `field` of a struct of named type n, return true.
 func isFieldLoad(v ssa.Value, n *types.Named, field string) bool {
+	// m.store(): an accessor that does nothing but return the field
+	if call, ok := v.(*ssa.Call); ok && len(call.Call.Args) == 1 {
+		if cf := call.Call.StaticCallee(); cf != nil && cf.Signature.Recv() != nil {
+			if pt, ok := cf.Signature.Recv().Type().Underlying().(*types.Pointer); ok && isNamed(pt.Elem(), n) {
+				if f, ok := thinGetter(cf); ok && f == field {
+					return true
+				}
+			}
+		}
+		return false
+	}
 	if u, ok := v.(*ssa.UnOp); ok && u.Op == token.MUL {
 		v = u.X
 	}
